@@ -34,3 +34,8 @@ claim('C17',
       'acquire/release pairing on all exits with variant-tracking path feasibility (Result state of the awaited receiver), provenance of key/sender/receiver, format-template comparison across sites, consuming-lookup table rule',
       'Decided from the MIR of the async bodies: after pending_rpcs.insert(k, tx) every exit of rpc_call_raw_with_timeout either passed pending_rpcs.remove(k) (same key value) or is reached only after the awaited receiver completed, i.e. the router had consumed the entry (the sender lives only in the map); the key is formatted from the pid freshly returned by allocate() (unique by C16), one oneshot channel per call with the sender moved into the map and the receiver awaited under a timeout; caller and router build the key with the same template over the same fields; the router uses a consuming remove and sends on the removed sender, so duplicate/late replies find nothing. Cancellation at await points is reported as information. Not decided: reply histories under real concurrency.',
       NOTE, 'DESIGN.md §4 C17')
+
+claim('C18',
+      'who-may-mutate + reachability rule on registry cleanup, insertion-only-through-vacant-entry table rule, dominance (notify before remove, awaited), provenance of exit notices and gen_server replies, single-consumer loop shape, bookkeeping symmetry tables',
+      'Decided from MIR: when a process task ends every path reaches registry.remove(own pid), which deletes from by_pid and from by_name; by_name is only ever inserted through Entry::Vacant (a name never maps to two processes); exit propagation is awaited on every path before the removal, iterates snapshots of the link and monitor sets, and each notice carries handle.pid and the stored reference; the task is the single consumer of a tokio mpsc receiver and calls handle_message once per received message; gen_server sends exactly one {Reference, Reply} to the caller; local link/unlink/monitor/demonitor keep both handles symmetric. Not decided: exactly-once/ordering under interleavings (tokio channel semantics trusted), instantaneous consistency of the two separately locked tables.',
+      NOTE, 'DESIGN.md §4 C18')
